@@ -8,6 +8,7 @@ CONSTANTS
   OtherPeer = FALSE
   ClearOnAnyDisconnect = FALSE
   SeqCallers = FALSE
+  GhostCallers = {}
   PeerMayClose = FALSE
   LeakIfGoneAtTimeout = FALSE
   RemoveOnTimeout = TRUE
